@@ -45,6 +45,10 @@ type ContentionOpts struct {
 	// organisations are submitted before cycle 2 or 3 only. So work of the over-quota organisation STARTS in cycle 1 and
 	// the reclaimers that arrive next meet a workload that has just started
 	LateReclaimers bool
+	// Surplus: the organisations' quotas add up to this many devices less than the capacity (taken from the largest
+	// quotas, no extra draws): the rest is divided by over-quota weight, so that fair shares lie above the quotas and
+	// reclaim has to stop at a fair share, not at a quota
+	Surplus int
 }
 
 func ContentionWith(seed int64, index int, tier string, opts ContentionOpts) *spec.Case {
@@ -117,6 +121,17 @@ func ContentionWith(seed int64, index int, tier string, opts ContentionOpts) *sp
 			if quotas[i] < 0 {
 				quotas[i] = 0
 			}
+		}
+	}
+	for s := 0; s < opts.Surplus; s++ {
+		big := 0
+		for i := range quotas {
+			if quotas[i] > quotas[big] {
+				big = i
+			}
+		}
+		if quotas[big] > 1 {
+			quotas[big]--
 		}
 	}
 	type leaf struct {
